@@ -3,6 +3,8 @@
 package config
 
 // Contracts for govc (see /verif/DESIGN.md). Compiled only with -tags verif.
+// NOT CLAIMED (pseudo-property X38): the nested forall/exists invariants below get no
+// solver answer; C38 is checked by a BOUNDED stand-in instead (/verif/bounded/C38).
 //
 // wellFormed is transcribed from the property statement (C38): templates empty or
 // containing {id}; store ids non-zero and distinct; region ids non-zero; every peer has
@@ -20,7 +22,7 @@ package config
 //@ spec func idsAre(f *File, m map[uint64]struct{}, n int) bool = forall id uint64 :: has(m, id) <==> (exists s int :: 0 <= s && s < n && s < len(f.Stores) && f.Stores[s].StoreID == id)
 
 //@ func (*File).Validate
-//@   property C38
+//@   property X38
 //@   ensures [nil-implies-wellformed] result == nil ==> old(wellFormed(f))
 //@   ensures [wellformed-implies-nil] old(wellFormed(f)) ==> result == nil
 //@   loop 1 invariant [stores] f != nil && templateOK(f.StoreWorkDirTemplate) && templateOK(f.StoreDockerWorkDirTemplate) && storesOKTo(f, rangeindex#1 + 1) && idsAre(f, storeIDs, rangeindex#1 + 1)
